@@ -50,7 +50,7 @@ func guarded(capN int) (whole []byte, buf []byte) {
 	for i := range whole {
 		whole[i] = 0xee
 	}
-	return whole, whole[16:16:16+capN]
+	return whole, whole[16 : 16 : 16+capN]
 }
 
 func guardsIntact(whole []byte, capN int) bool {
